@@ -15,9 +15,8 @@ LEVEL_TEXT = ("Lean theorems prefix_stable (blocks already emitted are never tou
               "yield on their own, lines offset) and concat_docs - for all token sequences and all derivations; tied to "
               "splitter.py by differential execution on (D1, X, D2) triples.")
 LEVEL_NOTE = ("Trusted: Lean kernel + 3 standard axioms; hand-written model Lex/Split.lean + Grammar.lean; the correspondence "
-              "run; CPython re semantics. Stated at token level on the blocks handed to Library.add; that the lexing of "
-              "D1+X+D2 is the concatenation of the lexings at an '@type{' boundary is exercised by the correspondence, not proved; "
-              "key collisions between the parts are C09's business (generator keeps keys distinct).")
+              "run; CPython re semantics. Token level (resync) and text level (lexer_boundary, resync_text), on the blocks "
+              "handed to Library.add; key collisions between the parts are C09's business (generator keeps keys distinct).")
 TECHNIQUE = "Lean 4 proof: output monotonicity + reset-at-mark lemma + C02 scanner lemmas; differential correspondence on triples"
 RULE = ("triples (D1 from G ending in a complete block, X, D2 from G starting with '@type{' at a line start): X = every token "
         "string of <= k tokens over { } \" , = NL \\ @a a SP (k=3 quick, 4 thorough) behind truncated-block prefixes, plus "
@@ -25,7 +24,14 @@ RULE = ("triples (D1 from G ending in a complete block, X, D2 from G starting wi
         "Non-trivial = X non-empty and at least 2 blocks returned.")
 EXHAUSTIVE = {"quick": False, "thorough": False}
 ASSUMPTIONS = ["keys of D1 and D2 are disjoint (collisions: C09)"]
-PARTIAL = ["the lexer boundary lemma (lex (x ++ '@'..) = lex x ++ lex ('@'..)) is validated by the correspondence, not proved"]
+PARTIAL = []
+
+
+def extra_obligations(tier):
+    """regex \\w does not match '@' (hypothesis of the lexer boundary lemma)"""
+    import re
+    ok = re.match(r"\w", "@") is None
+    return [("\\w does not match '@'", ok, "")]
 
 D1S = ["", "@a{k1, f = {v}}", "@string{s1 = {x}}\n@comment{c}", "text\n@b{k2,\n t = \"q\",\n}"]
 D2S = ["@c{k3, g = {w}}", "@comment{ok}\n@d{k4}", "@string{s2 = \"y\"}\ntrail", "@preamble{p}\n@e{k5, h = 1 # s2}\n"]
